@@ -26,7 +26,8 @@ type ExprStyle struct {
 func GenStyle(t *rapid.T) ExprStyle {
 	return ExprStyle{
 		UnnamedSingle: rapid.IntRange(0, 4).Draw(t, "unnamedSingle") == 0,
-		FreeName:      rapid.SampledFrom([]string{"rest", "rest", "*"}).Draw(t, "freeName"),
+		// ("" = a bare "*": a free wildcard without any name)
+		FreeName: rapid.SampledFrom([]string{"rest", "rest", "*", "rest", "*", ""}).Draw(t, "freeName"),
 	}
 }
 
